@@ -2724,3 +2724,7 @@ impl From<UdtDeserializationErrorKind> for BuiltinDeserializationErrorKind {
 #[cfg(test)]
 #[path = "value_tests.rs"]
 pub(crate) mod tests;
+
+// Verification hook (inert unless built by `cargo kani`, which sets --cfg kani).
+#[cfg(kani)]
+mod verif_kani;
